@@ -335,19 +335,158 @@ func (m *fakeManager) Find(query interface{}) ([]persistedretry.Task, error) {
 }
 
 // ---------------------------------------------------------------------------------------------
-// remote cluster
+// remote cluster: two scripted remote origins behind the REAL blobclient cluster client (location resolution, chunked
+// upload, move-on-to-the-next-origin rules).  Each remote origin speaks the upload protocol of an origin and has a
+// disposition: "ok", "fail" (a non-retryable status, or no Location header, at one stage), "retry" (a retryable
+// status at one stage) or "net" (drops every connection).
+
+type rhost struct {
+	r      *fakeRemote
+	hs     *httptest.Server
+	addr   string
+	mode   string // ok | fail | retry | net
+	stage  string // start | patch | commit (fail, retry)
+	status int    // status answered at that stage; 0 = 200 without a Location header (start only)
+	stored map[string][]byte
+	ups    map[string][]byte
+	nup    int
+}
 
 type fakeRemote struct {
-	cl   *cluster
-	mu   sync.Mutex
-	has  map[string]bool
-	down bool
+	cl    *cluster
+	mu    sync.Mutex
+	hosts []*rhost
+}
+
+type staticHosts struct{ addrs []string }
+
+func (h staticHosts) Resolve() stringset.Set { return stringset.FromSlice(h.addrs) }
+
+func newFakeRemote(cl *cluster) *fakeRemote {
+	r := &fakeRemote{cl: cl}
+	for i := 0; i < 2; i++ {
+		h := &rhost{r: r, mode: "ok", stored: map[string][]byte{}, ups: map[string][]byte{}}
+		h.hs = httptest.NewUnstartedServer(http.HandlerFunc(h.serve))
+		h.hs.Config.SetKeepAlivesEnabled(false)
+		h.hs.Start()
+		h.addr = h.hs.Listener.Addr().String()
+		r.hosts = append(r.hosts, h)
+	}
+	return r
+}
+
+func (r *fakeRemote) close() {
+	for _, h := range r.hosts {
+		h.hs.Close()
+	}
+}
+
+// holds reports whether some remote origin stores exactly the bytes of the digest.
+func (r *fakeRemote) holds(hexd string) bool {
+	r.mu.Lock()
+	defer r.mu.Unlock()
+	for _, h := range r.hosts {
+		if b, ok := h.stored[hexd]; ok {
+			sum := sha256.Sum256(b)
+			if hex.EncodeToString(sum[:]) == hexd {
+				return true
+			}
+		}
+	}
+	return false
+}
+
+func drop(w http.ResponseWriter) {
+	if hj, ok := w.(http.Hijacker); ok {
+		if c, _, err := hj.Hijack(); err == nil {
+			c.Close()
+		}
+	}
+}
+
+func (h *rhost) serve(w http.ResponseWriter, req *http.Request) {
+	body, _ := io.ReadAll(req.Body)
+	h.r.mu.Lock()
+	defer h.r.mu.Unlock()
+	if h.mode == "net" {
+		drop(w)
+		return
+	}
+	p := strings.Split(strings.Trim(req.URL.EscapedPath(), "/"), "/")
+	if len(p) == 3 && p[0] == "blobs" && p[2] == "locations" {
+		var addrs []string
+		for _, o := range h.r.hosts {
+			addrs = append(addrs, o.addr)
+		}
+		w.Header().Set("Origin-Locations", strings.Join(addrs, ","))
+		return
+	}
+	if len(p) < 5 || p[0] != "namespace" || p[2] != "blobs" || p[4] != "uploads" {
+		w.WriteHeader(http.StatusNotImplemented)
+		return
+	}
+	hexd := strings.TrimPrefix(p[3], "sha256:")
+	if i := strings.Index(p[3], "%3A"); i >= 0 {
+		hexd = p[3][i+3:]
+	}
+	stage := "start"
+	if len(p) == 6 && req.Method == http.MethodPatch {
+		stage = "patch"
+	} else if len(p) == 6 && req.Method == http.MethodPut {
+		stage = "commit"
+	}
+	if (h.mode == "fail" || h.mode == "retry") && h.stage == stage {
+		if h.status == 0 { // "succeeds" without telling the upload id
+			w.WriteHeader(http.StatusOK)
+			return
+		}
+		w.WriteHeader(h.status)
+		return
+	}
+	switch stage {
+	case "start":
+		if _, ok := h.stored[hexd]; ok && h.mode == "ok" {
+			w.WriteHeader(http.StatusConflict)
+			return
+		}
+		h.nup++
+		uid := fmt.Sprintf("ru%d", h.nup)
+		h.ups[uid] = nil
+		w.Header().Set("Location", uid)
+	case "patch":
+		buf, ok := h.ups[p[5]]
+		parts := strings.Split(req.Header.Get("Content-Range"), "-")
+		if !ok || len(parts) != 2 {
+			w.WriteHeader(http.StatusNotFound)
+			return
+		}
+		a, _ := strconv.Atoi(parts[0])
+		for len(buf) < a+len(body) {
+			buf = append(buf, 0)
+		}
+		copy(buf[a:], body)
+		h.ups[p[5]] = buf
+	case "commit":
+		buf, ok := h.ups[p[5]]
+		if !ok {
+			w.WriteHeader(http.StatusNotFound)
+			return
+		}
+		delete(h.ups, p[5])
+		sum := sha256.Sum256(buf)
+		if hex.EncodeToString(sum[:]) != hexd {
+			w.WriteHeader(http.StatusInternalServerError)
+			return
+		}
+		h.stored[hexd] = append([]byte{}, buf...)
+	}
 }
 
 type remoteClient struct {
 	r    *fakeRemote
 	from *node
 	dns  string
+	real blobclient.ClusterClient
 }
 
 func (r *fakeRemote) provider(n *node) blobclient.ClusterProvider { return &remoteProvider{r, n} }
@@ -358,26 +497,25 @@ type remoteProvider struct {
 }
 
 func (p *remoteProvider) Provide(dns string) (blobclient.ClusterClient, error) {
-	return &remoteClient{p.r, p.n, dns}, nil
+	var addrs []string
+	for _, h := range p.r.hosts {
+		addrs = append(addrs, h.addr)
+	}
+	prov := blobclient.NewProvider(blobclient.WithChunkSize(uint64(p.r.cl.lchunk * chunk)))
+	real := blobclient.NewClusterClient(blobclient.NewClientResolver(prov, staticHosts{addrs}))
+	return &remoteClient{p.r, p.n, dns, real}, nil
 }
 func (c *remoteClient) CheckReadiness() error { return nil }
+
+// UploadBlob runs the real cluster client against the scripted remote origins and reports what came of it: ok = the
+// client reported success, good = success coincides with the remote cluster really holding the blob's bytes.
 func (c *remoteClient) UploadBlob(ctx context.Context, namespace string, d core.Digest, b io.ReadSeeker, size uint64) error {
-	data, rerr := io.ReadAll(b)
-	sum := sha256.Sum256(data)
-	good := rerr == nil && hex.EncodeToString(sum[:]) == d.Hex() && uint64(len(data)) == size
-	k := "k?"
-	if bl := c.r.cl.blobOf(d.Hex()); bl != nil {
-		k = bl.k
-	}
-	c.r.mu.Lock()
-	defer c.r.mu.Unlock()
-	if c.r.down {
-		c.r.cl.c.W.Ev("RemoteUp", "node", c.from.name, "ns", namespace, "d", k, "str", c.dns, "ok", false, "good", good)
-		return errInjected
-	}
-	c.r.has[d.Hex()] = true
-	c.r.cl.c.W.Ev("RemoteUp", "node", c.from.name, "ns", namespace, "d", k, "str", c.dns, "ok", true, "good", good)
-	return nil
+	had := c.r.holds(d.Hex())
+	err := c.real.UploadBlob(ctx, namespace, d, b, size)
+	has := c.r.holds(d.Hex())
+	good := has == (had || err == nil)
+	c.r.cl.c.W.Ev("RemoteUp", "node", c.from.name, "ns", namespace, "d", c.r.cl.kOf(d.Hex()), "str", c.dns, "ok", err == nil, "good", good)
+	return err
 }
 func (c *remoteClient) DownloadBlob(ctx context.Context, namespace string, d core.Digest, dst io.Writer) error {
 	return errors.New("x03: unused")
@@ -479,7 +617,7 @@ func newCluster(c *eng.Ctx, rng rnd, nnodes, lchunk int) *cluster {
 	cl.junk = fresh()
 	cl.ring = &fakeRing{locs: map[string][]string{}}
 	cl.bk = &bstore{kv: map[string][]byte{}}
-	cl.remote = &fakeRemote{cl: cl, has: map[string]bool{}}
+	cl.remote = newFakeRemote(cl)
 	for i := 0; i < nnodes; i++ {
 		cl.nodes = append(cl.nodes, cl.newNode(fmt.Sprintf("n%d", i+1)))
 	}
@@ -547,6 +685,7 @@ func (cl *cluster) close() {
 		n.hs.Close()
 		n.cas.Close()
 	}
+	cl.remote.close()
 	os.RemoveAll(cl.dir)
 }
 
@@ -941,13 +1080,11 @@ func (cl *cluster) obs() {
 		}
 	}
 	cl.bk.mu.Unlock()
-	cl.remote.mu.Lock()
 	for _, bl := range cl.blobs {
-		if cl.remote.has[bl.d.Hex()] {
+		if cl.remote.holds(bl.d.Hex()) {
 			rem = append(rem, bl.k)
 		}
 	}
-	cl.remote.mu.Unlock()
 	cl.c.W.Ev("Obs", "nodes", nodes, "backend", bk, "remote", rem)
 }
 
